@@ -412,7 +412,13 @@ def substitute_type_args(etype, type_map,
     }
     type_con = perform_type_substitution(
         etype.t_constructor, new_type_map, cond)
-    return ParameterizedType(type_con, type_args)
+    new_type = ParameterizedType(type_con, type_args)
+    # As in TypeConstructor.new(): the type constructor kept by the new type
+    # must have the declared (generic) supertypes; otherwise, a later
+    # instantiation of it (e.g., to_variance_free()) starts from supertypes
+    # that are already instantiated.
+    new_type.t_constructor.supertypes = etype.t_constructor.supertypes
+    return new_type
 
 
 def substitute_type(t, type_map):
